@@ -469,56 +469,82 @@ func splitMessage(input string, maxWidth int) (output []string) {
 
 	checkappend:
 
-		// Check if we can append, otherwise we must split.
-		if 1+utf8.RuneCountInString(word)+utf8.RuneCountInString(output[len(output)-1]) < maxWidth {
-			if output[len(output)-1] != "" {
-				output[len(output)-1] += " "
-			}
-			output[len(output)-1] += word
+		// The line as it would look with nothing but the active codes on it, and
+		// the separator needed before the word.
+		fresh := strings.Join(codes, "") + lastColor
+		last := len(output) - 1
+		sep := ""
+		if output[last] != "" {
+			sep = " "
+		}
+
+		// Check if we can append, otherwise we must split. Widths are bytes, as
+		// that is what the line limit counts.
+		if len(output[last])+len(sep)+len(word) <= maxWidth {
+			output[last] += sep + word
 			continue
 		}
 
-		// If the word can fit on a line by itself, check if it's a url. If it is,
-		// put it on it's own line.
-		if utf8.RuneCountInString(word+strings.Join(codes, "")+lastColor) < maxWidth {
-			if _, err := url.Parse(word); err == nil {
-				output = append(output, strings.Join(codes, "")+lastColor+word)
-				continue
+		if output[last] != "" && output[last] != fresh {
+			// If the word can fit on a line by itself, check if it's a url. If it
+			// is, put it on it's own line.
+			if len(fresh)+1+len(word) <= maxWidth {
+				if _, err := url.Parse(word); err == nil {
+					output = append(output, fresh)
+					goto checkappend
+				}
+			}
+
+			// Check to see if we can split by misc symbols (keeping the symbol), but
+			// must be at least a few characters long to be split by it.
+			if j := strings.IndexAny(word, "-+_=|/~:;,."); j > 3 && j+1 < len(word) && len(output[last])+len(sep)+j+1 <= maxWidth {
+				output[last] += sep + word[0:j+1]
+				word = word[j+1:]
+				goto checkappend
+			}
+
+			// Words that are acceptable to just put on the next line go there, as
+			// do all words if there is hardly any room left on this one.
+			if 1+len(word) <= maxWordSplitLength || maxWidth-len(output[last]) <= 5 {
+				output = append(output, fresh)
+				goto checkappend
 			}
 		}
 
-		// Check to see if we can split by misc symbols, but must be at least a few
-		// characters long to be split by it.
-		if j := strings.IndexAny(word, "-+_=|/~:;,."); j > 3 && 1+utf8.RuneCountInString(word[0:j])+utf8.RuneCountInString(output[len(output)-1]) < maxWidth {
-			if output[len(output)-1] != "" {
-				output[len(output)-1] += " "
+		// The word has to be cut: fill the line up to the limit, but never in the
+		// middle of a character, and always take at least one character so that
+		// we make progress even with an absurdly small width.
+		left := maxWidth - len(output[last]) - len(sep)
+		cut := 0
+		for cut < len(word) {
+			_, size := utf8.DecodeRuneInString(word[cut:])
+			if cut+size > left && cut > 0 {
+				break
 			}
-			output[len(output)-1] += word[0:j]
-			word = word[j+1:]
-			goto checkappend
+			cut += size
+			if cut >= left {
+				break
+			}
 		}
 
-		// If the word is longer than is acceptable to just put on the next line,
-		// split it into chunks. Also don't split the word if only a few characters
-		// left of the word would be on the next line.
-		if 1+utf8.RuneCountInString(word) > maxWordSplitLength && maxWidth-utf8.RuneCountInString(output[len(output)-1]) > 5 {
-			left := maxWidth - utf8.RuneCountInString(output[len(output)-1]) - 1 // -1 for the space
-
-			if output[len(output)-1] != "" {
-				output[len(output)-1] += " "
-			}
-			output[len(output)-1] += word[0:left]
-			word = word[left:]
-			goto checkappend
+		output[last] += sep + word[0:cut]
+		word = word[cut:]
+		if word == "" {
+			continue
 		}
 
-		left := maxWidth - utf8.RuneCountInString(output[len(output)-1])
-		output[len(output)-1] += word[0:left]
-
-		output = append(output, strings.Join(codes, "")+lastColor)
-		word = word[left:]
+		output = append(output, fresh)
 		goto checkappend
 	}
+
+	// Lines that ended up with nothing on them carry no content.
+	nonEmpty := output[:0]
+	for i := 0; i < len(output); i++ {
+		if output[i] != "" {
+			nonEmpty = append(nonEmpty, output[i])
+		}
+	}
+	output = nonEmpty
 
 	for i := 0; i < len(output); i++ {
 		output[i] = strings.ToValidUTF8(output[i], "?")
